@@ -234,17 +234,40 @@ func replayBatchFromChan(clck clock.Clock, batches <-chan edge.BufferedBatchMess
 		}
 	}()
 
+	emitEmpty := func(b edge.BufferedBatchMessage) error {
+		if b.Begin().Time().IsZero() {
+			// Set tmax to last batch if not set.
+			b.Begin().SetTime(tmax)
+		} else {
+			tmax = b.Begin().Time().UTC()
+			if !recTime && !start.IsZero() {
+				// The end time of an empty batch moves like everything else.
+				tmax = tmax.Add(diff).UTC()
+			}
+			b.Begin().SetTime(tmax)
+		}
+		return collector.CollectBatch(b)
+	}
+	// Empty batches that arrived before the offset of the replay was known.
+	var pending []edge.BufferedBatchMessage
+	emitPending := func() error {
+		for _, b := range pending {
+			if err := emitEmpty(b); err != nil {
+				return err
+			}
+		}
+		pending = nil
+		return nil
+	}
+
 	for b := range batches {
 		if len(b.Points()) == 0 {
-			// Emit empty batch
-			if b.Begin().Time().IsZero() {
-				// Set tmax to last batch if not set.
-				b.Begin().SetTime(tmax)
-			} else {
-				tmax = b.Begin().Time().UTC()
-				b.Begin().SetTime(tmax)
+			if !reported && !recTime {
+				pending = append(pending, b)
+				continue
 			}
-			if err := collector.CollectBatch(b); err != nil {
+			// Emit empty batch
+			if err := emitEmpty(b); err != nil {
 				return err
 			}
 			continue
@@ -255,6 +278,9 @@ func replayBatchFromChan(clck clock.Clock, batches <-chan edge.BufferedBatchMess
 			rs.report(points[0].Time())
 			start = rs.wait()
 			diff = zero.Sub(start)
+			if err := emitPending(); err != nil {
+				return err
+			}
 		}
 		var lastTime time.Time
 		if !recTime {
@@ -278,6 +304,14 @@ func replayBatchFromChan(clck clock.Clock, batches <-chan edge.BufferedBatchMess
 		if err := collector.CollectBatch(b); err != nil {
 			return err
 		}
+	}
+	if len(pending) > 0 {
+		// This source has no points at all, use the offset of the other sources.
+		reported = true
+		rs.report(time.Time{})
+		start = rs.wait()
+		diff = zero.Sub(start)
+		return emitPending()
 	}
 	return nil
 }
